@@ -163,15 +163,34 @@ impl NewCase {
     }
 
     fn cmd(&self, force_e1: bool) -> Cmd {
-        Cmd {
+        let real_binary = force_e1 || self.e2.is_none() || self.e3;
+        let mut c = Cmd {
             argv: self.argv(),
             entropy: self.entropy.clone(),
             tail: self.tail.clone(),
-            wplan: if self.e2.is_some() && !self.e3 && !force_e1 { Vec::new() } else { self.wplan.clone() },
+            wplan: if real_binary { self.wplan.clone() } else { Vec::new() },
             e2: if force_e1 { None } else { self.e2.clone() },
             e3: self.e3 && !force_e1,
             ..Cmd::default()
+        };
+        if c.e2.is_none() {
+            // Single-searcher runs on the real binary ("E1") also go through the shim's thread
+            // scheduler, with a fixed seed: there is at most one worker, so it decides nothing, but
+            // its step budget and its bound on entropy requests after the device turned generous end
+            // a search that cannot succeed after a few milliseconds instead of the 10 s watchdog.
+            let w = self.workers().min(64);
+            c.e2 = Some(E2Params {
+                sched: SchedSpec { policy: "random".into(), seed: 0, param: 0, horizon: 0, trace: vec![] },
+                max_steps: (200 + 40 * (self.entropy.len() + w)) as u32,
+                generous_bound: (64 * (w + 2)) as u32,
+                generous_requests: (2 * (w + 2)) as u32,
+                lib_tasks: 0,
+                lib_len: 0,
+                lib_calls: 0,
+            });
+            c.e3 = true;
         }
+        c
     }
 
     pub fn workers(&self) -> usize {
